@@ -226,8 +226,17 @@ pub fn apply_plain(root: &Path, vars_dir: &Path, op: &FsOp, clock: &mut u64) -> 
     }
 }
 
+/// One `watch()` registration: inotify resolves the path once and then follows the inode, while
+/// every event is reported under the path *as it was given* (`<given>/<name>`, or `<given>`
+/// itself for an event on the watched directory or file).
+pub struct WatchRoot {
+    pub declared: PathBuf,
+    pub canon: PathBuf,
+    pub is_dir: bool,
+}
+
 pub struct WatcherState {
-    pub roots: Vec<(PathBuf, bool)>,
+    pub roots: Vec<WatchRoot>,
     pub handler: Option<Box<dyn FnMut(u8, Vec<PathBuf>)>>,
     pub dead: bool,
     pub closed: bool,
@@ -247,11 +256,21 @@ impl Vfs {
     }
 }
 
-fn watcher_sees(w: &WatcherState, p: &Path) -> bool {
+/// The path under which watcher `w` reports an event on `p` (None: not covered by `w`).
+pub fn reported_as(w: &WatcherState, p: &Path) -> Option<PathBuf> {
     if w.closed {
-        return false;
+        return None;
     }
-    w.roots.iter().any(|(r, is_dir)| if *is_dir { p.starts_with(r) && p != r } else { p == r })
+    for r in &w.roots {
+        if r.is_dir {
+            if let Ok(rel) = p.strip_prefix(&r.canon).or_else(|_| p.strip_prefix(&r.declared)) {
+                return Some(if rel.as_os_str().is_empty() { r.declared.clone() } else { r.declared.join(rel) });
+            }
+        } else if p == r.canon || p == r.declared {
+            return Some(r.declared.clone());
+        }
+    }
+    None
 }
 
 /// Queue the notifications for `lists` (each a path list of one inotify event) at every watcher
@@ -263,9 +282,10 @@ pub fn notify_paths(rt: &mut Rt, lists: Vec<Ev>) {
     for wi in 0..rt.vfs.watchers.len() {
         for l in &lists {
             // a two-path rename event is reported when either end is covered
-            let sees = l.1.iter().any(|p| watcher_sees(&rt.vfs.watchers[wi], p));
-            if sees {
-                rt.vfs.watchers[wi].queue.push_back(l.clone());
+            let mapped: Vec<Option<PathBuf>> = l.1.iter().map(|p| reported_as(&rt.vfs.watchers[wi], p)).collect();
+            if mapped.iter().any(|m| m.is_some()) {
+                let paths: Vec<PathBuf> = mapped.into_iter().zip(l.1.iter()).map(|(m, p)| m.unwrap_or_else(|| p.clone())).collect();
+                rt.vfs.watchers[wi].queue.push_back((l.0, paths));
                 rt.add_event(EvKind::FsDeliver { watcher: wi, paths: vec![] });
             }
         }
@@ -435,7 +455,8 @@ pub fn watch(id: usize, path: &Path) -> Result<(), WatchError> {
 fn watch_inner(rt: &mut Rt, id: usize, path: &Path) -> Result<(), WatchError> {
     match std::fs::metadata(path) {
         Ok(md) => {
-            rt.vfs.watchers[id].roots.push((path.to_path_buf(), md.is_dir()));
+            let canon = std::fs::canonicalize(path).unwrap_or_else(|_| path.to_path_buf());
+            rt.vfs.watchers[id].roots.push(WatchRoot { declared: path.to_path_buf(), canon, is_dir: md.is_dir() });
             rt.ev("watch", &format!("w{} {} dir={}", id, crate::trace::esc_path(path), md.is_dir()));
             Ok(())
         }
